@@ -285,7 +285,9 @@ def run_all(ctx, cases):
         outs = ctx.model.sessions(mlines)
         raw = outs
         for i, (ls, o) in enumerate(zip(mlines, outs)):
-            model[i] = pick_outputs(cases[i], ls, o)
+            # histories with an op the sequential model does not express are judged by the monitors only
+            if not any(tuple(x)[0] == "restart_early" for x in cases[i]["ops"]):
+                model[i] = pick_outputs(cases[i], ls, o)
     else:
         raw = [None] * len(cases)
     recs = [{"case": c, "impl": io[0], "viol": io[1], "stats": io[2], "model": mo, "mlines": ml, "mraw": rw}
